@@ -6,7 +6,7 @@
 
 package casket
 
-//@ unit execute_directives props=C09 filter=`casket\.executeDirectives$`
+//@ unit execute_directives frames=on props=C09 filter=`casket\.executeDirectives$`
 //@ ghost lastDir int
 //@ spec idx(dirs []string, d string) int
 
@@ -153,7 +153,7 @@ package casket
 //@   loop 1 invariant 0 <= #i && #i <= len(i.OnRestart) && nRestart == #i && nFailed == 0 && nShut == 0 && nStop == 0 && nStart == 0 && err == nil
 //@   loop 3 invariant 0 <= #i && #i <= len(i.OnShutdown) && nShut == #i && nFailed == 0 && nStop == 1 && nStart == 1 && nRestart == len(i.OnRestart) && err == nil
 
-//@ unit event_hooks props=C08 filter=`casket\.restoreEventHooks$`
+//@ unit event_hooks frames=on props=C08 filter=`casket\.restoreEventHooks$`
 //@ // "a failed reload leaves the registered event hooks as they were": the signal handler clones the hook map, purges it,
 //@ // reloads, and on failure calls restoreEventHooks(clone). sync.Map is not modelled; what is proved is the order that makes
 //@ // the result equal to the clone: the hooks registered by the failed reload are purged before the saved ones are stored.
